@@ -3,6 +3,7 @@ import BU.Gen.Tables
 import BU.Spec.Ecdsa
 import BU.Spec.CurveLaws
 import BU.Model.Msg
+import BU.Proofs.MsgLemmas
 /-!
 # C14 — signed messages: sign, verify and key recovery agree and interoperate
 
@@ -36,7 +37,9 @@ theorem verify_true_implies (sha256 : Bytes → Bytes) (magic : Bytes) (addrOf :
     ∃ q : Nat × Nat,
       ecdsaVerify (some q) (ofBE (msgDigest sha256 magic msg)) (ofBE ((sig.drop 1).take 32)) (ofBE ((sig.drop 33).take 32)) = true ∧
       addrOf q (decide ((sig.getD 0 0).toNat ≥ 31)) = address := by
-  sorry
+  rw [MsgLemmas.verifyMessage_eq] at h
+  obtain ⟨h1, h2, h3, q, hv, ha⟩ := MsgLemmas.verifyN_true _ _ _ _ _ _ _ _ _ _ _ _ _ h
+  exact ⟨h1, h2, h3, q, (MsgLemmas.verifyDigest_ok_iff _ _ _ _).1 hv, ha⟩
 
 /-- headers outside 27..35 are never accepted; a signature that is not 65 bytes raises -/
 theorem verify_header_window (sha256 : Bytes → Bytes) (magic : Bytes) (addrOf : Nat × Nat → Bool → String)
@@ -44,7 +47,10 @@ theorem verify_header_window (sha256 : Bytes → Bytes) (magic : Bytes) (addrOf 
     (sig.length ≠ 65 → ∃ e, verifyMessage sha256 magic addrOf address sig msg = .error e) ∧
     (sig.length = 65 → ((sig.getD 0 0).toNat < 27 ∨ (sig.getD 0 0).toNat > 35) →
       verifyMessage sha256 magic addrOf address sig msg = .ok false) := by
-  sorry
+  rw [MsgLemmas.verifyMessage_eq]
+  obtain ⟨h1, h2⟩ := MsgLemmas.verifyN_window sqrtAll onCurve mul add G invN ecdsaVerifyDigest n p
+    (ofBE (msgDigest sha256 magic msg)) addrOf address sig
+  exact ⟨fun h => ⟨_, h1 h⟩, h2⟩
 
 /-- the ECDSA signature (r, s) that a signer with secret `d` and nonce `k` produces for digest value `z` -/
 def ecdsaSigOf (d k z : Nat) (xr : Nat) : Nat × Nat := (xr % n, invN k * ((z % n + (xr % n) * d) % n) % n)
